@@ -31,9 +31,17 @@ func c01(c *Ctx) {
 			mode = []uint32{1025, 1026, 1024, 64}[(i/tallEvery)%4]
 		}
 		b := model.Gen(rng, class, model.GenOpts{Syn: rng.Intn(6) == 0, Vec: VecBuild && rng.Intn(2) == 0, NoBig: true})
+		extra := ""
+		if class == "tall" {
+			// a term whose cardinality sits next to a chunk-rule threshold
+			k := model.EdgeCards[(i/tallEvery)%len(model.EdgeCards)]
+			f := b.Docs[0].Fields[0].Name
+			model.ForceCardinality(b, rng, f, "edge", k)
+			extra = fmt.Sprintf("term edge in %d docs of field %s", k, f)
+		}
 		fp := b.Fingerprint()
 		id := fmt.Sprintf("b%d", i)
-		if !c.Case(id, caseDesc{Class: class, Mode: mode, Docs: len(b.Docs), FP: fpString(fp)}) {
+		if !c.Case(id, caseDesc{Class: class, Mode: mode, Docs: len(b.Docs), FP: fpString(fp), Extra: extra}) {
 			continue
 		}
 		m := model.Build(b)
